@@ -376,7 +376,7 @@ impl TKey {
 }
 
 fn hostile_tkey() -> BoxedStrategy<TKey> {
-    let f = || strs::field_string(2);
+    let f = || strs::field_string(4);
     let fixed = prop_oneof![
         (any::<[u8; 16]>(), proptest::option::of(any::<u32>())).prop_map(|(ekey, block)| TKey::Blte { ekey, block }),
         any::<[u8; 16]>().prop_map(|ckey| TKey::Content { ckey }),
@@ -392,7 +392,44 @@ fn hostile_tkey() -> BoxedStrategy<TKey> {
         3 => (f(), prop_oneof![Just(0u64), any::<u64>()], prop_oneof![Just(0u32), any::<u32>()]).prop_map(|(archive_id, start, len)| TKey::ArchiveRange { archive_id, start, len }),
         1 => fixed,
     ]
+    .prop_map(cap_fields)
     .boxed()
+}
+
+/// at most 8 `..` components over all string fields of one key (safety by construction)
+fn cap_fields(mut k: TKey) -> TKey {
+    let mut left = 8usize;
+    let mut cap = |s: &mut String| {
+        let c = strs::cap_dotdots(s, left);
+        left -= crate::sandbox::dotdots(&c).min(left);
+        *s = c;
+    };
+    match &mut k {
+        TKey::Ribbit { endpoint, region, product } => {
+            cap(region);
+            if let Some(p) = product {
+                cap(p);
+            }
+            cap(endpoint);
+        }
+        TKey::Config { config_type, hash } => {
+            cap(config_type);
+            cap(hash);
+        }
+        TKey::ArchiveIndex { archive_name, index_hash } => {
+            cap(archive_name);
+            cap(index_hash);
+        }
+        TKey::Manifest { manifest_type, version, .. } => {
+            cap(manifest_type);
+            if let Some(v) = version {
+                cap(v);
+            }
+        }
+        TKey::ArchiveRange { archive_id, .. } => cap(archive_id),
+        _ => {}
+    }
+    k
 }
 
 #[derive(Debug, Clone, Serialize, Deserialize)]
